@@ -416,6 +416,14 @@ def countRuns (v : Vars) : M Nat := do
   let ts ← iter v.tags
   pure (cs.length * is.length * vs.length * ts.length)
 
+/-- exp_variables.py:82-90 `__hash__`: `tuple(self.input_sizes)`, … -/
+def hashVars (v : Vars) : M Unit := do
+  let _ ← iter v.inputSizes
+  let _ ← iter v.cores
+  let _ ← iter v.varValues
+  let _ ← iter v.tags
+  pure ()
+
 /-- model/__init__.py:73-80 `value_with_optional_details` -/
 def valueWithDetails (v : Doc) (dflt : Doc) : M (Doc × Doc) :=
   match v with
@@ -506,7 +514,7 @@ def mapM' {α β : Type} (xs : List α) (f : α → M β) : M (List β) :=
 /-- experiment.py:101-125 `_compile_executors_and_benchmark_suites`: the compiled
 suites with the settings their benchmarks inherit -/
 def compileExecutions (env : Env) (executions suites : Doc) (d : Details) (v : Vars) :
-    M (List (Doc × Details × Vars)) := do
+    M (List (Doc × Details × Vars × Vars)) := do
   let execs ← iter executions
   let per ← mapM' execs (fun executorCfg => do
     let (name, details) ← valueWithDetails executorCfg .null
@@ -531,7 +539,8 @@ def compileExecutions (env : Env) (executions suites : Doc) (d : Details) (v : V
           | none => throw .keyError
         | _ => throw .keyError
       let (d3, v3) ← compileSuite sCfg d2 v2
-      pure (sCfg, d3, v3)))
+      -- the executor's own variables are kept: they are hashed with every run (see `hashVars`)
+      pure (sCfg, d3, v3, v2)))
   pure per.flatten
 
 /-- experiment.py:36-62 + 64-82: one experiment; returns its number of runs -/
@@ -556,11 +565,17 @@ def compileExperiment (cli : Cli) (root : Doc) (dataFile : Doc) (exp : Doc) (d :
                      suites := root.getD "benchmark_suites" (.map []), action := action }
   let suites ← compileExecutions env (exp.getD "executions" .null) (exp.getD "suites" .null) d1 v1
   -- _compile_benchmarks
-  let benches ← mapM' suites (fun (s : Doc × Details × Vars) => do
+  let benches ← mapM' suites (fun (s : Doc × Details × Vars × Vars) => do
     let bs ← iter (s.1.getD "benchmarks" .null)
-    mapM' bs (fun b => compileBench cli b s.2.1 s.2.2))
-  -- _compile_runs
-  let counts ← mapM' benches.flatten countRuns
+    mapM' bs (fun b => do
+      let bv ← compileBench cli b s.2.1 s.2.2.1
+      pure (bv, s.2.2.2)))
+  -- _compile_runs; creating the first run of a benchmark hashes it (persistence.py:109-114):
+  -- run → benchmark → suite → executor → `ExpVariables.__hash__` of the executor
+  let counts ← mapM' benches.flatten (fun (bv : Vars × Vars) => do
+    let n ← countRuns bv.1
+    if n > 0 then hashVars bv.2
+    pure n)
   pure counts.sum
 
 /-- configurator.py:148-165 `validate_gauge_adapters` -/
